@@ -3,12 +3,12 @@ package main
 // go/ssa (naive form) -> IVL.
 
 import (
-	"path/filepath"
-	"go/constant"
 	"fmt"
-	"math/big"
+	"go/constant"
 	"go/token"
 	"go/types"
+	"math/big"
+	"path/filepath"
 	"sort"
 	"strings"
 
@@ -44,12 +44,12 @@ type transErr struct{ msg string }
 func fail(format string, a ...interface{}) { panic(transErr{fmt.Sprintf(format, a...)}) }
 
 type deferSite struct {
-	instr *ssa.Defer
-	flag  *Cell
-	args  []sval
-	binds []sval
+	instr      *ssa.Defer
+	flag       *Cell
+	args       []sval
+	binds      []sval
 	translated bool
-	argCells []*Cell
+	argCells   []*Cell
 }
 
 // sval: an SSA/spec value: SMT term + Go type + optional static lvalue.
@@ -62,59 +62,63 @@ type sval struct {
 // frame is one activation being translated (the function under contract or an
 // inlined callee).
 type frame struct {
-	t        *fnTrans
-	fn       *ssa.Function
-	prefix   string
-	vals     map[ssa.Value]sval
-	blocks   map[*ssa.BasicBlock]*Block
-	allocs   map[*ssa.Alloc]sval
-	names    map[string][]sval // variable name -> cells in declaration order
-	params   map[string]sval
-	results  []*Cell
-	retBlock *Block // inlined: join block
-	defers   []*deferSite
-	panicking *Cell
+	t          *fnTrans
+	fn         *ssa.Function
+	prefix     string
+	vals       map[ssa.Value]sval
+	blocks     map[*ssa.BasicBlock]*Block
+	allocs     map[*ssa.Alloc]sval
+	names      map[string][]sval // variable name -> cells in declaration order
+	params     map[string]sval
+	results    []*Cell
+	retBlock   *Block // inlined: join block
+	defers     []*deferSite
+	panicking  *Cell
 	hasRecover bool
 	panicBlock *Block
-	parent   *frame
-	freeVars map[*ssa.FreeVar]sval
-	depth    int
-	phiEdges map[*ssa.BasicBlock]map[*ssa.BasicBlock]*Block
-	tuples   map[ssa.Value][]sval
-	closures map[ssa.Value]*ssa.MakeClosure
+	parent     *frame
+	freeVars   map[*ssa.FreeVar]sval
+	depth      int
+	phiEdges   map[*ssa.BasicBlock]map[*ssa.BasicBlock]*Block
+	tuples     map[ssa.Value][]sval
+	closures   map[ssa.Value]*ssa.MakeClosure
 	deferredBy *frame
-	ptrBind  map[string]*lval
-	namePos  map[string][]token.Pos
-	resLv    map[int]*lval
+	ptrBind    map[string]*lval
+	namePos    map[string][]token.Pos
+	resLv      map[int]*lval
 }
 
 type fnTrans struct {
-	eng     *Engine
-	th      Theory
-	fc      *FuncContract
-	fn      *ssa.Function
-	proc    *Proc
-	cur     *Block
-	top     *frame
-	globals map[string]*Cell // heap / memory / ghost cells used
-	gorder  []string
-	cellTyp map[string]types.Type
-	tmp     int
-	oldSnap map[string]*Cell
-	callSeq map[string]int
-	assumptions map[string]bool
-	loopHeads []*Block
-	writeRanges []writeRange
-	modFields []modField
-	modAll    bool
-	retCount int
+	renames       map[string]string // contract identifier -> the local's present name (renamed locals, by position)
+	eng           *Engine
+	th            Theory
+	fc            *FuncContract
+	fn            *ssa.Function
+	proc          *Proc
+	cur           *Block
+	top           *frame
+	globals       map[string]*Cell // heap / memory / ghost cells used
+	gorder        []string
+	cellTyp       map[string]types.Type
+	tmp           int
+	oldSnap       map[string]*Cell
+	callSeq       map[string]int
+	assumptions   map[string]bool
+	loopHeads     []*Block
+	writeRanges   []writeRange
+	modFields     []modField
+	modAll        bool
+	retCount      int
 	usedSpecFuncs map[string]bool
-	curPos token.Pos
-	preGlobals []*Cell // globals discovered by a first translation pass (goroutine fragments)
-	constGlobals map[string]int64
-	outside  map[string]int
-	callSites map[ssa.Instruction]string
-	usedAsserts map[string]bool
+	curPos        token.Pos
+	preGlobals    []*Cell // globals discovered by a first translation pass (goroutine fragments)
+	constGlobals  map[string]int64
+	outside       map[string]int
+	callSites     map[ssa.Instruction]string
+	usedAsserts   map[string]bool
+	usedSites     map[string]bool
+	stmtSites     map[ssa.Instruction][]string
+	hasStmtSites  bool
 }
 
 type writeRange struct {
@@ -677,6 +681,7 @@ func (t *fnTrans) posString() string {
 func (f *frame) instr(in ssa.Instruction) {
 	t := f.t
 	th := t.th
+	f.stmtSite(in)
 	if p := in.Pos(); p.IsValid() {
 		t.curPos = p
 	}
